@@ -128,6 +128,23 @@ C14(w) ==
        THEN <<"C14.RelayOnce", "a node with multicast_relay off re-broadcast the frame">>
   ELSE OK
 
+\* a multicast sent while another node's unicast is in flight (a level-L node waiting for the NETWORK_ACK of its own routed
+\* message): only the multicast's own frames are judged - nobody acknowledges them, the waiting node included, and
+\* nobody gets it twice (delivery itself is best-effort under the concurrent traffic: frames may collide on the air)
+C14w(w) ==
+  LET c == w.call  sender == NodeNamed(c.n)
+      L == IF c.level < 0 THEN c.lvl ELSE (IF c.level > 4 THEN 4 ELSE c.level)
+      E0 == {m \in Idx(T.nodes) : m # sender /\ T.nodes[m].allow_mc /\ LvlOf(m) = L}
+      Got(m) == Cardinality({i \in Idx(w.deqs) : w.deqs[i].n = T.nodes[m].name /\ w.deqs[i].type = c.type /\ w.deqs[i].msg = c.msg
+                                                 /\ w.deqs[i]["from"] = c.src})
+      mc == SelectSeq(w.pkts, LAMBDA p : IsFrame(p) /\ HdrOf(p).to = 64) IN
+  IF w.ret.exc # "none" THEN <<"C14.ExactlyLevel", "multicast() raised " \o w.ret.exc>>
+  ELSE IF \E i \in Idx(mc) : mc[i].want_ack THEN <<"C14.NoAckRequested", "a packet of the multicast requested a radio acknowledgement">>
+  ELSE IF \E i \in Idx(mc) : mc[i].has_ack
+       THEN <<"C14.NoAckSent", "a receiver acknowledged a multicast packet (while waiting for a NETWORK_ACK of its own)">>
+  ELSE IF \E m \in E0 : Got(m) > 1 THEN <<"C14.ExactlyLevel", "multicast delivered more than once to one node">>
+  ELSE OK
+
 Crash(w) == IF Len(w.bad) > 0 THEN <<"C15.NoRaise", w.bad[1].k \o " on " \o w.bad[1].n \o ": " \o w.bad[1].what>> ELSE OK
 
 Families(w) == {w.call.chk[i] : i \in Idx(w.call.chk)}
@@ -138,6 +155,7 @@ Verdicts(w) == (IF Families(w) = {} THEN <<>> ELSE <<Crash(w)>>)
                \o (IF "C13" \in Families(w) THEN <<C13(w)>> ELSE <<>>)
                \o (IF "C13x" \in Families(w) THEN <<C13x(w)>> ELSE <<>>)
                \o (IF "C14" \in Families(w) THEN <<C14(w)>> ELSE <<>>)
+               \o (IF "C14w" \in Families(w) THEN <<C14w(w)>> ELSE <<>>)
 Failing(w) == SelectSeq(Verdicts(w), LAMBDA v : v[1] # "ok")
 
 TInit == tid \in 1..Len(Traces) /\ l = 1 /\ verdict = <<>>
